@@ -95,7 +95,7 @@ func (x *Xlat) load(st *State, p Place) *Term {
 			return App("mk_"+srt, srt, args...)
 		}
 		v := Sel(x.heapOf(st, fieldKey(p.T, p.names), p.typ), p.ref)
-		if x.nn && v.Sort == SRef && nnField[fieldKey(p.T, p.names)] {
+		if x.nn && x.ctx.noDefine == 0 && v.Sort == SRef && (nnField[fieldKey(p.T, p.names)] || isMapType(p.typ)) {
 			st.assume(Not(Eq(v, TNull))) // A11: edge ends are never nil
 		}
 		return v
@@ -103,7 +103,7 @@ func (x *Xlat) load(st *State, p Place) *Term {
 		es := x.tm.SortOf(p.typ)
 		h := x.get(st, elemsKey(es), elemsSort(es))
 		v := x.atTerm(h, p.sl, p.idx, es)
-		if x.nn && es == SRef && x.graphListProv(p.sl, 0) {
+		if x.nn && x.ctx.noDefine == 0 && es == SRef && x.graphListProv(p.sl, 0) {
 			st.assume(Not(Eq(v, TNull))) // A11: the graph's node, edge, layer and adjacency lists hold no nil
 		}
 		return v
@@ -1005,4 +1005,9 @@ func (x *Xlat) graphListProv(t *Term, depth int) bool {
 		}
 	}
 	return false
+}
+
+func isMapType(t types.Type) bool {
+	_, ok := t.Underlying().(*types.Map)
+	return ok
 }
